@@ -9,14 +9,15 @@ from typing import Any
 
 from vf.common import Ctx
 from vf.sim.device import DeviceConfig, DeviceConn
+from vf.sim import sweep
 from vf.sim.scenario import Sim
 
 LEVEL = "exploration"
 RULE = ("scripts over 1-3 concurrent send_messages_await_response_complex calls (own or shared response types out of 3, timeouts 0.5/1/2 s, "
         "harness-owned accept/stop predicates keyed by bits in the message) with events {start call i (+ device replies emitted the moment the "
-        "request is received = readable in the very next loop turn), arrival(type, accept bits, stop bits), cancel call i, toggle the library's debug flag, close(eof|garbage|force|peer DisconnectRequest; garbage and peer optionally in the same chunk as the answers before them)} "
+        "request is received = readable in the very next loop turn), arrival(type, accept bits, stop bits), cancel call i, toggle the library's debug flag, add a passive subscriber on a response type / call its remove function (repeatedly), close(eof|garbage|force|peer DisconnectRequest; garbage and peer optionally in the same chunk as the answers before them)} "
         "and gaps {same instant, same chunk as the previous arrival (one TCP segment), +1 ms, exactly at call j's timeout instant}; instant replies optionally coalesced into one chunk; seeded random scripts, all orderings of small event sets at thorough; "
-        "plus the public wrappers. Oracle: per-call sequential model over the recorded arrival history (process_packet order), exact timeout "
+        "plus the public wrappers, plus (lifecycle engine) calls outstanding on a stalled connect with disconnect() on top when the link is lost: every one ends in that instant. Oracle: per-call sequential model over the recorded arrival history (process_packet order), exact timeout "
         "instant, connection's error at close, cancellation; leftovers after every ending: predicates never invoked after the call returned, "
         "no handle_timeout timer beyond the calls still pending, handler table / waiter set hold nothing of finished calls. Non-trivial = at least "
         "one call ended and was compared; distinct = (script shape, outcomes)")
@@ -79,6 +80,7 @@ def run_script(script: dict[str, Any]) -> dict[str, Any]:
                 arrivals.append((sim.next_seq(), sim.clock, m.name, msg.key))
 
         sim.packet_hook = hook
+        v0 = sim.view(conn)
         recs: list[Any] = [None] * len(calls)
         pred_log: list[list[tuple[int, str, int]]] = [[] for _ in calls]
         cancels: dict[int, int] = {}
@@ -98,6 +100,18 @@ def run_script(script: dict[str, Any]) -> dict[str, Any]:
             types = tuple(getattr(pb, TYPES[t]) for t in spec["types"])
             req = getattr(pb, REQUESTS[i])()
             recs[i] = sim.call(f"call{i}", lambda: conn.send_messages_await_response_complex((req,), do_append, do_stop, types, spec["timeout"]))
+
+        subs: list[Any] = []
+        sub_log: list[tuple[int, int, int]] = []
+
+        def subscribe(ty: int) -> None:
+            k = len(subs)
+            if v0.closed_seq is None:
+                subs.append(conn.add_message_callback(lambda m, k=k: sub_log.append((sim.next_seq(), k, m.key)), (getattr(pb, TYPES[ty]),)))
+
+        def unsubscribe(k: int) -> None:
+            if k < len(subs):
+                subs[k]()
 
         def cancel_call(i: int) -> None:
             if recs[i] is not None and not recs[i].done:
@@ -138,6 +152,13 @@ def run_script(script: dict[str, Any]) -> dict[str, Any]:
                 chunk.append(("msg", dev.proto.id_of(TYPES[ty]), msg.SerializeToString()))
             elif kind == "cancel":
                 sim.at(t, functools.partial(cancel_call, ev[2]))
+            elif kind == "sub":
+                # a passive subscriber on one of the response types (another part of the application listening to the same messages)
+                sim.at(t, functools.partial(subscribe, ev[2]))
+            elif kind == "unsub":
+                # its remove function is called -- possibly for the second or third time (clean-up paths commonly do): a repeated removal
+                # has no effect on anything else registered for that type
+                sim.at(t, functools.partial(unsubscribe, ev[2]))
             elif kind == "debug":
                 # the application toggles the library's debug logging while calls are outstanding (Home Assistant does on a log-level change)
                 sim.at(t, functools.partial(cli.set_debug, bool(ev[2])))
@@ -322,8 +343,14 @@ def gen_script(rng: Any, framing: str) -> dict[str, Any]:
             if events[-1][1] == "arrive" and rng.random() < 0.4:
                 gap = "chunk"
             events.append([gap, "arrive", rng.randrange(3), rng.randrange(8), rng.randrange(8) if rng.random() < 0.45 else 0])
-        elif r < 0.87:
+        elif r < 0.84:
             events.append([gap, "cancel", rng.choice(sorted(started))])
+        elif r < 0.87:
+            nsub = sum(1 for e in events if e[1] == "sub")
+            if nsub and rng.random() < 0.7:
+                events.append([gap, "unsub", rng.randrange(nsub)])
+            else:
+                events.append([gap, "sub", rng.randrange(3)])
         elif r < 0.9:
             events.append([gap, "debug", rng.random() < 0.7])
         else:
@@ -421,6 +448,30 @@ def shard(ctx: Ctx) -> None:
                 one(ctx, script, "small-permutations-sample")
     if ctx.shard == 0:
         wrappers(ctx)
+    # a passive subscriber on the call's response type removed once, twice, three times around the call
+    idx = 0
+    for ty in range(3):
+        for pattern in (["sub", "call", "unsub", "unsub", "arrive"], ["sub", "call", "unsub", "arrive"], ["call", "sub", "unsub", "unsub", "unsub", "arrive"],
+                        ["sub", "unsub", "call", "unsub", "arrive"], ["sub", "sub", "call", "unsub", "unsub", "arrive"], ["sub", "unsub", "unsub", "call", "arrive"]):
+            for gap in ("0", "ms"):
+                for ncalls in (1, 2):
+                    idx += 1
+                    if not ctx.mine(idx):
+                        continue
+                    calls = [{"types": [ty], "timeout": 1.0, "instant": []} for _ in range(ncalls)]
+                    ev: list[Any] = []
+                    for p in pattern:
+                        if p == "call":
+                            ev += [[gap, "call", i] for i in range(ncalls)]
+                        elif p == "sub":
+                            ev.append([gap, "sub", ty])
+                        elif p == "unsub":
+                            ev.append([gap, "unsub", 0])
+                        else:
+                            ev.append(["ms", "arrive", ty, 7, 7])
+                    one(ctx, {"framing": "plain", "calls": calls, "events": ev}, "subscriber-removed-repeatedly")
+    # calls outstanding on a connection whose connect is stalled, disconnect() waiting on top, then the link is lost (lifecycle engine)
+    sweep.stalled_connect_sweep(ctx, "C11")
 
 
 def exhaustive(tier: str) -> Any:
@@ -430,6 +481,8 @@ def exhaustive(tier: str) -> Any:
 
 
 def replay(spec: dict[str, Any]) -> int:
+    if "spec" in spec["case"]:
+        return sweep.replay("C11", spec)
     script = spec["case"]["script"]
     o = run_script(script)
     print("\n".join(o["trace"]))
